@@ -202,6 +202,15 @@ def check_c03(case, stats=None, conservation=False):
     # conservation for pipe descriptors (sources profile: runs end with enough settle steps)
     if conservation:
         V += _conservation(case, F, stats)
+    sigs = case.sc.meta.get("signals_must_fire")
+    if sigs:
+        for sg, owner in sigs.items():
+            raised = any(r.k == "<" and r.op == "raise" and r.args[0] == sg and executed(r) and r.ret == 0 for r in recs)
+            got = sum(1 for r in recs if r.k == "V" and r.kind == "sgn" and r.slot == owner and r.fields.get("signo") == str(sg))
+            if stats is not None:
+                stats["signals_judged"] = stats.get("signals_judged", 0) + 1
+            if raised and got < 1:
+                V.append(("C03/event-lost", "signal %d was sent to the process while module %d, RUNNING, held a signal source for it and the loop ran on: no signal event was delivered" % (sg, owner)))
     # tasks the generator promises enough loop time for
     must = case.sc.meta.get("tasks_must_fire")
     if must:
